@@ -57,3 +57,21 @@ func init() {
 	addMutant(mutant{Name: "revert/F09-copylogs-empty-source", Fire: []string{"VF-10"},
 		Edits: []edit{{"migrate/migrate.go", "	if last == 0 {\n		// Empty source log: nothing to copy (index 0 is not a log entry).\n		update(\"DONE: source log is empty, nothing to copy\")\n		return nil\n	}\n", ""}}})
 }
+
+func init() {
+	addMutant(mutant{Name: "revert/F03-varint-count-unchecked", Fire: []string{"VF-02"},
+		Edits: []edit{{"codec.go", "	if n <= 0 {\n", "	if false {\n"}}})
+	addMutant(mutant{Name: "revert/F07-no-write-size-limit", Fire: []string{"FD-03"},
+		Edits: []edit{{"segment/writer.go", "	if len(e.Data) > MaxEntrySize {\n		return ErrTooBig\n	}\n", ""}}})
+	addMutant(mutant{Name: "reader/drop-maxentrysize-guard", Fire: []string{"VF-01", "FD-03"},
+		Edits: []edit{{"segment/reader.go", "	if fh.len > MaxEntrySize {\n		return fh, nil, fmt.Errorf(\"%w: frame header indicates a record larger than MaxEntrySize (%d bytes)\", types.ErrCorrupt, MaxEntrySize)\n	}\n", ""}}})
+	addMutant(mutant{Name: "reader/drop-fits-in-buffer-check", Fire: []string{"VF-02"},
+		Edits: []edit{{"segment/reader.go", "	if (frameHeaderLen + int(fh.len)) <= len(buf.Bs) {", "	if true {"}}})
+	addMutant(mutant{Name: "codec/drop-length-guard-in-bytes", Fire: []string{"VF-01", "VF-02"},
+		Edits: []edit{{"codec.go", "	if n > uint64(len(d.buf)) {\n		d.err = io.ErrShortBuffer\n		return nil\n	}\n", ""}}})
+	addMutant(mutant{Name: "filer/dump-drop-realloc", Fire: []string{"VF-02"},
+		Edits: []edit{{"segment/filer.go", "				if frame.Len > uint32(len(buf)) {\n					buf = make([]byte, frame.Len)\n				}\n", ""}}})
+	addMutant(mutant{Name: "writer/size-guard-after-buffering", Fire: []string{"FD-03"},
+		Edits: []edit{{"segment/writer.go", "	if len(e.Data) > MaxEntrySize {\n		return ErrTooBig\n	}\n\n	fh := frameHeader{\n		typ: FrameEntry,\n		len: uint32(len(e.Data)),\n	}\n	bufOffset, err := w.appendFrame(fh, e.Data)\n	if err != nil {\n		return err\n	}",
+			"	fh := frameHeader{\n		typ: FrameEntry,\n		len: uint32(len(e.Data)),\n	}\n	bufOffset, err := w.appendFrame(fh, e.Data)\n	if err != nil {\n		return err\n	}\n	if len(e.Data) > MaxEntrySize {\n		return ErrTooBig\n	}"}}})
+}
